@@ -68,10 +68,19 @@ func (e *VerifEnv) AddEntry(name string, typeflag byte, size int64, deleted bool
 	}
 	e.Tape.AddMember(hdr, 3, size, data)
 	e.Tape.AddTrailer()
+	lastStart := start
+	if deleted {
+		// a tombstone is the trace of a DELETE record that follows the CREATE record on the tape
+		lastStart = e.Tape.Len
+		dh := &tar.Header{Typeflag: typeflag, Name: name, Linkname: linkname, Mode: 0o644, Format: tar.FormatPAX, PAXRecords: map[string]string{"STFS.Version": "1", "STFS.Action": "DELETE"}}
+		e.Tape.AddMember(dh, 3, 0, nil)
+		e.Tape.AddTrailer()
+	}
 	blocks := start / 512
+	lastBlocks := lastStart / 512
 	rs := int64(e.RS)
 	row := &models.Header{
-		Record: blocks / rs, Block: blocks % rs, Lastknownrecord: blocks / rs, Lastknownblock: blocks % rs,
+		Record: blocks / rs, Block: blocks % rs, Lastknownrecord: lastBlocks / rs, Lastknownblock: lastBlocks % rs,
 		Typeflag: int64(typeflag), Name: name, Linkname: linkname, Size: size, Mode: 0o644, Paxrecords: pax, Format: int64(tar.FormatPAX),
 	}
 	if deleted {
